@@ -284,7 +284,19 @@ def blocking_case(item):
 def asm_case(item):
     """Both endpoints driven through integration.AsyncStateMachine by
     wantsReadEvent / wantsWriteEvent, under a transport regime."""
-    idx, tier, seed, rname = item
+    idx, tier, seed, rname = item[:4]
+    if len(item) > 4 and item[4] == "big":
+        # messages of more than one full record (the state machine reads
+        # with max=16384: a full record fills that exactly)
+        saved = (progs.MSG1, progs.MSG2, progs.MSG3)
+        progs.MSG1 = bytes((i * 5 + 1) & 0xff for i in range(2 ** 14 + 50))
+        progs.MSG2 = bytes((i * 3 + 2) & 0xff for i in range(2 ** 14))
+        progs.MSG3 = bytes((i * 7 + 3) & 0xff for i in range(3 * 2 ** 14 + 9))
+        try:
+            name, rn, d = asm_case(item[:4])
+        finally:
+            progs.MSG1, progs.MSG2, progs.MSG3 = saved
+        return name, (rn or "") + "+big", d
     from tlslite.integration.asyncstatemachine import AsyncStateMachine
     from tlslite.api import TLSConnection
     sc = scenarios(tier)[idx]
@@ -333,6 +345,7 @@ def asm_case(item):
     for _ in range(200000):
         before = w.activity
         changed = False
+        got_before = len(cm.rbuf) + len(sm.rbuf)
         for m in (cm, sm):
             if m.exc is not None:
                 continue
@@ -388,6 +401,18 @@ def asm_case(item):
                    for m in (cm, sm))
         if done:
             break
+        if len(cm.rbuf) + len(sm.rbuf) != got_before:
+            changed = True      # (records served from the read-ahead buffer)
+        total = len(progs.MSG1) + len(progs.MSG2) + len(progs.MSG3)
+        if len(cm.rbuf) + len(sm.rbuf) > 4 * total + 4096:
+            # more bytes delivered than were ever written: stop here
+            for m in (cm, sm):
+                if len(m.rbuf) > 2 * total:
+                    m.exc = RuntimeError(
+                        "%d bytes delivered to the reader, more than were "
+                        "written" % len(m.rbuf))
+                    m.rbuf = m.rbuf[:64]
+            break
         if w.activity == before and not changed:
             idle += 1
             if idle > 5:
@@ -400,6 +425,63 @@ def asm_case(item):
             W.Outcome("ok") if not m.plan else W.Outcome("stall"))
         obs[m.who] = progs.observe(m.tlsConnection, m.log, out)
     return sc.name, rname, diff_obs(base, obs)
+
+
+def first_result_case(item):
+    """The documented way to use the *Async generators: resume until the
+    first result that is not 0 / 1, then drop the generator.  A stream read
+    in pieces of k bytes that way equals the stream read with blocking
+    calls, whatever the record and piece sizes."""
+    idx, tier, seed, k, n = item
+    sc = scenarios(tier)[idx]
+    pair, out = S.connect(sc, seed=seed)
+    if out["C"].status != "ok" or out["S"].status != "ok":
+        return sc.name, k, n, ["handshake failed"]
+    data = bytes((i * 11 + 5) & 0xff for i in range(n))
+    fails = []
+    for (src, dst) in (("C", "S"), ("S", "C")):
+        w = pair.write(src, data)
+        if w.status != "ok":
+            fails.append("write %s: %r" % (src, w.sig()))
+            continue
+        ep = pair.ep(dst)
+        got = b""
+        for _ in range(4 * n + 50):
+            if len(got) >= n:
+                break
+            W.SEAMS.current = dst
+            gen = ep.readAsync(max=k, min=1)
+            res_ = None
+            try:
+                for r in gen:
+                    if r in (0, 1):
+                        # nothing can arrive: the writer is done
+                        res_ = None
+                        break
+                    res_ = r
+                    break       # first real result: stop, drop generator
+            except BaseException as e:  # noqa
+                fails.append("%s readAsync raised %s" % (dst,
+                                                         type(e).__name__))
+                break
+            finally:
+                W.SEAMS.current = "main"
+            if res_ is None:
+                fails.append("%s: would block with %d of %d bytes read" % (
+                    dst, len(got), n))
+                break
+            if len(res_) > k:
+                fails.append("%s: read returned %d bytes for max=%d" % (
+                    dst, len(res_), k))
+            got += bytes(res_)
+        if got != data and not fails:
+            fails.append("%s: stream read through first results differs "
+                         "from the bytes written (%d read, %d written, "
+                         "first difference at %d)" % (
+                             dst, len(got), n,
+                             next((i for i in range(min(len(got), n))
+                                   if got[i] != data[i]), min(len(got), n))))
+    return sc.name, k, n, fails
 
 
 # ---------------------------------------------------------------- reframing
@@ -568,6 +650,8 @@ def run(res, tier, seed):
     # AsyncStateMachine
     items = [(i, tier, seed, r) for i in range(len(scs))
              for r in (None, "recv1", "blockfirst", "halves")]
+    items += [(i, tier, seed, r, "big") for i in range(len(scs))
+              for r in (None, "halves") if tier == "thorough" or i % 3 == 0]
     na = 0
     for (name, rname, d) in pmap(asm_case, items):
         na += 1
@@ -579,6 +663,22 @@ def run(res, tier, seed):
                           {"part": "asyncstatemachine", "scenario": name,
                            "regime": rname})
     res.section("asyncstatemachine", executions=na)
+    fitems = [(i, tier, seed, k, n) for i in range(len(scs))
+              for (k, n) in ((1, 10), (10, 100), (7, 100), (100, 100),
+                             (16384, 16384 + 50), (16384, 50))
+              if tier == "thorough" or i % 2 == 0 or k == 10]
+    nf = 0
+    for (name, k, n, fails) in pmap(first_result_case, fitems):
+        nf += 1
+        res.count()
+        res.outcome(("first-result", k, n, bool(fails)))
+        for f in fails:
+            res.violation({"part": "first-result", "scenario": name,
+                           "max": k, "what": f[:40]},
+                          {"fail": f, "written": n},
+                          {"part": "first-result", "scenario": name,
+                           "max": k, "n": n})
+    res.section("async_first_result_consumer", executions=nf)
     # re-framing
     items = []
     for i, sc in enumerate(scs):
